@@ -1,5 +1,5 @@
 #!/usr/bin/env python3
-"""neutral_matrix.py [ketosa] [only-own]: runs every behaviour-preserving refactoring of /verif/neutral (as an overlay,
+"""neutral_matrix.py [ketosa] [only-own] (env NEUTRAL_IDS / NEUTRAL_PROPS: regex filters, results merged into the existing matrix): runs every behaviour-preserving refactoring of /verif/neutral (as an overlay,
 `ketosa -property P -control neutral-<id>`) against every property's rules and writes /verif/neutral/MATRIX.json:
 for each refactoring the properties whose check raised an alarm on it (every one of them is a false alarm)."""
 import json, os, subprocess, sys, concurrent.futures as cf
@@ -8,6 +8,8 @@ own = len(sys.argv) > 2 and sys.argv[2] == 'only-own'
 env = dict(os.environ, GOFLAGS='-mod=mod', GOPROXY='off', KETOSA_SYMBOLS='/verif/symbols.json'); env.pop('GOWORK', None)
 props = subprocess.run([K, '-list'], capture_output=True, text=True, env=env).stdout.split()
 import re
+PF = os.environ.get('NEUTRAL_PROPS')
+if PF: props = [p for p in props if re.search(PF, p)]
 ids = sorted(d for d in os.listdir('/verif/neutral') if d.startswith('C') and os.path.isdir('/verif/neutral/' + d) and re.search(os.environ.get('NEUTRAL_IDS', '.'), d))
 jobs = [(n, p) for n in ids for p in props if not own or p == json.load(open(f'/verif/neutral/{n}/meta.json'))['property']]
 def run(job):
@@ -23,7 +25,14 @@ with cf.ThreadPoolExecutor(int(os.environ.get('JOBS', '6'))) as ex:
         elif not j.get('applied'): res[n]['not_applied'].append(p)
         elif j.get('fired'): res[n]['alarms'][p] = j['fired']
 old = {}
-if (own or os.environ.get('NEUTRAL_IDS')) and os.path.exists('/verif/neutral/MATRIX.json'): old = json.load(open('/verif/neutral/MATRIX.json'))
+if (own or PF or os.environ.get('NEUTRAL_IDS')) and os.path.exists('/verif/neutral/MATRIX.json'): old = json.load(open('/verif/neutral/MATRIX.json'))
+if PF and not own:
+    for n in ids:
+        o = old.get(n, {'alarms': {}, 'not_applied': [], 'errors': {}})
+        for k in ('alarms', 'errors'):
+            for q in props: o[k].pop(q, None)
+            o[k].update(res[n][k])
+        res[n] = o
 if os.environ.get('NEUTRAL_IDS') and not own:
     for n, v in old.items():
         if n not in res: res[n] = v
